@@ -156,3 +156,32 @@ def abs_witness_defn():
 
 def abs_witness_points():
     return [{"dt": 0.1, "v": -2.0, "x": 5.0}, {"dt": 0.05, "v": 1.5, "x": -3.0}, {"dt": 0.1, "v": -0.25, "x": 0.5}]
+
+
+# ---------------------------------------------------------------------------------------------------------
+# Well-conditioned by construction: everything is a function of differences to large calibration offsets
+# (a map-frame position 1e8 m from the origin, a beacon 0.75 m away).  As written the differences are exact
+# and every output is accurate to rounding; an algebraically equivalent rewrite that multiplies the
+# differences out ((x - bx)**2 -> x**2 - 2*bx*x + bx**2) cancels catastrophically.  CSE on must match CSE off
+# and the exact value here as everywhere else.
+
+
+def offset_witness_defn():
+    S = E.S
+    dx, dy = ["sub", S("x"), S("bx")], ["sub", S("y"), S("by")]
+    r2 = ["add", ["pow", dx, 2], ["pow", dy, 2]]
+    return {
+        "dt": "dt", "state": ["x", "y"], "control": [], "calibration": ["bx", "by"],
+        "model": {"x": ["add", S("x"), ["mul", S("dt"), ["mul", dx, dy]]],
+                  "y": ["add", S("y"), ["div", S("dt"), ["add", E.C(1), r2]]]},
+        "model_as_text": [], "containers": {"state": "set", "control": "set", "calibration": "set"},
+        "calibration_map": {"bx": 1.0e8, "by": -3.0e7}, "process_noise": {},
+        "sensors": {"beacon": {"range2": r2, "power": ["div", E.C(1), ["add", E.C(1), r2]], "bearing": ["atan", ["mul", dx, dy]]}},
+        "sensor_noises": {"beacon": {"range2": 0.5, "power": 0.25, "bearing": 0.1}}, "reading_keys": {"beacon": "str"},
+        "n_shared": 1, "family": "offset_differences_witness",
+    }
+
+
+def offset_witness_points():
+    return [{"dt": 0.1, "x": 1.0e8 + 0.5, "y": -3.0e7 + 0.5}, {"dt": 0.1, "x": 1.0e8 - 0.75, "y": -3.0e7 + 2.25},
+            {"dt": 0.05, "x": 1.0e8 + 3.0, "y": -3.0e7 - 0.125}]
